@@ -103,22 +103,30 @@ def ref_scenario(sc, steps, want_trace=False):
     monitoring = False
     out = []
 
+    BUILTIN = ('step started', 'step ended', 'event consumed', 'event sent', 'delayed event sent',
+               'state exited', 'state entered', 'transition processed')
+    heard = []
+    it.attach(heard.append)
+
     class Frozen:
-        """what a macro step said when it was returned (later changes to the objects it was built
-        from must not change the facts)"""
-        def __init__(self, m):
-            self.entered_states = list(m.entered_states)
-            self.exited_states = list(m.exited_states)
-            self.sent_events = list(m.sent_events)
+        """what happened during a macro step, as the interpreter announced it while it happened (the states it
+        said it entered and exited, the events it said were sent) — not what the returned MacroStep lists, and
+        fixed when the step returns"""
+        def __init__(self, m, metas):
+            self.entered_states = [e.state for e in metas if e.name == 'state entered']
+            self.exited_states = [e.state for e in metas if e.name == 'state exited']
+            self.sent_events = [e.event if e.name == 'event sent' else e for e in metas
+                                if e.name == 'event sent' or e.name not in BUILTIN]
             self.event = m.event
 
     def run_all():
         ms = []
         while True:
+            del heard[:]
             m = it.execute_once()
             if m is None:
                 return ms
-            ms.append(Frozen(m))
+            ms.append(Frozen(m, list(heard)))
 
     def do(kw, a):
         nonlocal trace, monitoring
